@@ -53,11 +53,19 @@ def build(fedjax, name, case, copt=None, sopt=None, loss=None, **kw):
     alg = apfl.adaptive_personalized_federated_learning(grad_fn(fedjax, loss), copt, sopt, hp, client_coefficient=kw.get('coef', 0.5))
     return alg, alg.init, lambda s: plist(s.params)
   if name == 'agnostic_fed_avg':
+    # the initial weights / window as arrays, as plain lists (the documented Sequence[float]), or the window left to its
+    # documented default (ones)
+    style = kw.get('init_style', 'arrays')
+    weights, window0 = list(kw.get('domain_weights', [0.5, 0.5])), list(kw.get('init_window', [1.0, 1.0]))
+    extra = {}
+    if style == 'arrays':
+      weights, extra = np.array(weights, np.float32), {'init_domain_window': np.array(window0, np.float32)}
+    elif style == 'lists' or any(x != 1.0 for x in window0):
+      extra = {'init_domain_window': window0}
     alg = A.agnostic_fed_avg.agnostic_federated_averaging(
-        loss, copt, sopt, hp, pad,
-        init_domain_weights=np.array(kw.get('domain_weights', [0.5, 0.5]), np.float32),
+        loss, copt, sopt, hp, pad, init_domain_weights=weights,
         domain_learning_rate=kw.get('domain_lr', 0.125), domain_algorithm=kw.get('domain_algorithm', 'eg'),
-        domain_window_size=kw.get('window', 1), init_domain_window=np.array(kw.get('init_window', [1.0, 1.0]), np.float32))
+        domain_window_size=kw.get('window', 1), **extra)
     return alg, alg.init, lambda s: plist(s.params)
   raise ValueError(name)
 
